@@ -582,3 +582,37 @@ Proof.
          (v3z 0 0 0), (v3z 3 1 1), (-1), 300.
   split; [unfold in_region; cbn; lia|]. repeat split; vm_compute; reflexivity.
 Qed.
+
+(* ------------------------------------------------------------ the other iterator members (generated operators):
+   constructor, jump_to, current, + and - with an offset or another iterator, the postfix-signature --, ==, dimensions *)
+Lemma iterator3_members (d : vec3 IZ) (a b : Z) :
+  multidim_index_iterator3_mk__v3ul IZ d = it3 d 0 /\
+  multidim_index_iterator3_current__ IZ (it3 d a) = a /\
+  multidim_index_iterator3_jump_to__ul IZ (it3 d a) b = it3 d b /\
+  multidim_index_iterator3_op_add__ul IZ (it3 d a) b = it3 d (a + b) /\
+  multidim_index_iterator3_op_sub__ul IZ (it3 d a) b = it3 d (a - b) /\
+  multidim_index_iterator3_op_add__multidim_index_iterator3 IZ (it3 d a) (it3 d b) = it3 d (a + b) /\
+  multidim_index_iterator3_op_sub__multidim_index_iterator3 IZ (it3 d a) (it3 d b) = it3 d (a - b) /\
+  multidim_index_iterator3_op_dec__i IZ (it3 d a) 0 = it3 d (a - 1) /\
+  multidim_index_iterator3_op_eq__multidim_index_iterator3 IZ (it3 d a) (it3 d b) = (a =? b) /\
+  multidim_index_sequence3_dimensions__ IZ (seq3 d) = d.
+Proof.
+  destruct d as [dx dy dz]. repeat lazymatch goal with |- _ /\ _ => split end; try reflexivity.
+  unfold it3. gen_unfold. rewrite !Z.eqb_refl. reflexivity.
+Qed.
+
+Lemma iterator2_members (d : vec2 IZ) (a b : Z) :
+  multidim_index_iterator2_mk__v2ul IZ d = it2 d 0 /\
+  multidim_index_iterator2_current__ IZ (it2 d a) = a /\
+  multidim_index_iterator2_jump_to__ul IZ (it2 d a) b = it2 d b /\
+  multidim_index_iterator2_op_add__ul IZ (it2 d a) b = it2 d (a + b) /\
+  multidim_index_iterator2_op_sub__ul IZ (it2 d a) b = it2 d (a - b) /\
+  multidim_index_iterator2_op_add__multidim_index_iterator2 IZ (it2 d a) (it2 d b) = it2 d (a + b) /\
+  multidim_index_iterator2_op_sub__multidim_index_iterator2 IZ (it2 d a) (it2 d b) = it2 d (a - b) /\
+  multidim_index_iterator2_op_dec__i IZ (it2 d a) 0 = it2 d (a - 1) /\
+  multidim_index_iterator2_op_eq__multidim_index_iterator2 IZ (it2 d a) (it2 d b) = (a =? b) /\
+  multidim_index_sequence2_dimensions__ IZ (seq2 d) = d.
+Proof.
+  destruct d as [dx dy]. repeat lazymatch goal with |- _ /\ _ => split end; try reflexivity.
+  unfold it2. gen_unfold. rewrite !Z.eqb_refl. reflexivity.
+Qed.
